@@ -250,6 +250,19 @@ class PathCtx:
         return r
 
     # ------------------------------------------------------------ constraints
+    def sign_of(self, t):
+        """+1 if the path implies t >= 0, -1 if it implies t <= 0, else 0 (no fork)."""
+        c = z3.simplify(t)
+        if z3.is_rational_value(c) or z3.is_int_value(c):
+            return 1 if c.as_fraction() >= 0 else -1
+        r, _ = self._inc_check(t < 0)
+        if r == "unsat":
+            return 1
+        r, _ = self._inc_check(t > 0)
+        if r == "unsat":
+            return -1
+        return 0
+
     def _add(self, c):
         self.constraints.append(c)
         self.inc.add(c)
@@ -424,7 +437,7 @@ class PathCtx:
                 if self.dyadic_vars:
                     m = self.dyadic_model(extra=[z3.Not(claim)] + excl) or m
                 matched = None
-                for kf in known:
+                for kf in (known or ()):
                     ent = self.ex.known_findings.get(kf.kid)
                     if ent and ent.get("status") == "known" and z3.is_true(
                             m.eval(kf.pred, model_completion=True)):
